@@ -494,3 +494,123 @@ PROPS["C19"] = {'coq': 'Properties/C19.v',
  'assumptions': ['input is what gsd_parser::parse_from_file passes on: String::from_utf8_lossy of the file bytes',
                  'entry points gsd_parser::parser::parse / parse_with_warnings (parse_from_file itself panics on Err by design)',
                  '64-bit usize']}
+
+PROPS["C03"] = {'claimed': False,
+ 'coq': 'Properties/C03.v',
+ 'domains': ['dp'],
+ 'nontrivial': ['dp:step:transmit', 'dp:step:reply', 'dp:step:timeout'],
+ 'rule': 'cases = generated DP histories (0..4 peripherals in dense/sparse/Vec storage, all option values, conforming/silent/faulty/mismatching '
+         'slaves, lost requests/replies, malformed and unexpected replies, power cycles, user calls between bus events, time advances, fault-free '
+         'tails), deduplicated; non-trivial = callbacks executed on the real master (transmit / reply / timeout steps)',
+ 'trusted_base': ['hand models coq/Model/Peripheral.v + DpMaster.v of src/dp/peripheral.rs, master.rs, peripheral_set.rs (after fix commits F4 F6 '
+                  'F10 F11), tied by transcript replay: every FdlApplication callback and API call of generated histories is executed on the real '
+                  'DpMaster and on the model, all outputs compared (TX bytes, events, is_live/is_running/pi_i/pi_q/last_diagnostics, operating '
+                  'state)',
+                  'reference slave coq/Model/Slave.v (environment, written against the PROFIBUS standard, not the crate) and its Rust twin in '
+                  'harness/src/dp.rs, compared on every slave reply',
+                  'the FdlApplication contract (C15) as the space of histories; harness emulates the FDL reply admission filter'],
+ 'technique': 'phase 1: model + correspondence + executable monitor; one-step theorems',
+ 'level_text': 'Phase 1: executable Coq model of the DP master tied by transcript replay, bring-up monitor (DpOracle.c03_monitor) run on every '
+               'implementation transcript; one-step theorems over all peripheral states: C03_set_prm_bytes, C03_chk_cfg_bytes, '
+               'C03_dx_only_in_data_exchange, C03_watchdog_factors. Missing for a claim: C03_order (the monitor accepts every history of the model).',
+ 'level_note': 'Trusted: Coq kernel, translator (gen/translate.py, gen/tr_dp.py), extraction + OCaml driver, Rust harness; hand model validated '
+               'differentially, not verified.',
+ 'design_ref': 'DESIGN.md section 4, C03',
+ 'assumptions': ['histories allowed by the FdlApplication contract (C15)',
+                 'bytes 0..255, addresses 0..125, max_retry_limit 1..15 (ParametersBuilder bounds)']}
+
+PROPS["C04"] = {'claimed': False,
+ 'coq': 'Properties/C04.v',
+ 'domains': ['dp'],
+ 'nontrivial': ['dp:step:transmit', 'dp:step:reply', 'dp:step:timeout'],
+ 'rule': 'cases = generated DP histories (0..4 peripherals in dense/sparse/Vec storage, all option values, conforming/silent/faulty/mismatching '
+         'slaves, lost requests/replies, malformed and unexpected replies, power cycles, user calls between bus events, time advances, fault-free '
+         'tails), deduplicated; non-trivial = callbacks executed on the real master (transmit / reply / timeout steps)',
+ 'trusted_base': ['hand models coq/Model/Peripheral.v + DpMaster.v of src/dp/peripheral.rs, master.rs, peripheral_set.rs (after fix commits F4 F6 '
+                  'F10 F11), tied by transcript replay: every FdlApplication callback and API call of generated histories is executed on the real '
+                  'DpMaster and on the model, all outputs compared (TX bytes, events, is_live/is_running/pi_i/pi_q/last_diagnostics, operating '
+                  'state)',
+                  'reference slave coq/Model/Slave.v (environment, written against the PROFIBUS standard, not the crate) and its Rust twin in '
+                  'harness/src/dp.rs, compared on every slave reply',
+                  'the FdlApplication contract (C15) as the space of histories; harness emulates the FDL reply admission filter'],
+ 'technique': 'phase 1: model + correspondence + executable monitor; one-step theorems',
+ 'level_text': 'Phase 1: model, correspondence, process-image monitor (DpOracle.c04_monitor) on every implementation transcript; one-step theorems '
+               'over all states: C04_pi_i_frame, C04_request_carries_pi_q. Missing for a claim: C04_event_iff, C04_others_untouched (master level), '
+               'C04_end_to_end.',
+ 'level_note': 'Trusted: Coq kernel, translator (gen/translate.py, gen/tr_dp.py), extraction + OCaml driver, Rust harness; hand model validated '
+               'differentially, not verified.',
+ 'design_ref': 'DESIGN.md section 4, C04',
+ 'assumptions': ['histories allowed by the FdlApplication contract (C15)',
+                 'bytes 0..255, addresses 0..125, max_retry_limit 1..15 (ParametersBuilder bounds)']}
+
+PROPS["C07"] = {'claimed': False,
+ 'coq': 'Properties/C07.v',
+ 'domains': ['dp'],
+ 'nontrivial': ['dp:step:transmit', 'dp:step:reply', 'dp:step:timeout'],
+ 'rule': 'cases = generated DP histories (0..4 peripherals in dense/sparse/Vec storage, all option values, conforming/silent/faulty/mismatching '
+         'slaves, lost requests/replies, malformed and unexpected replies, power cycles, user calls between bus events, time advances, fault-free '
+         'tails), deduplicated; non-trivial = callbacks executed on the real master (transmit / reply / timeout steps)',
+ 'trusted_base': ['hand models coq/Model/Peripheral.v + DpMaster.v of src/dp/peripheral.rs, master.rs, peripheral_set.rs (after fix commits F4 F6 '
+                  'F10 F11), tied by transcript replay: every FdlApplication callback and API call of generated histories is executed on the real '
+                  'DpMaster and on the model, all outputs compared (TX bytes, events, is_live/is_running/pi_i/pi_q/last_diagnostics, operating '
+                  'state)',
+                  'reference slave coq/Model/Slave.v (environment, written against the PROFIBUS standard, not the crate) and its Rust twin in '
+                  'harness/src/dp.rs, compared on every slave reply',
+                  'the FdlApplication contract (C15) as the space of histories; harness emulates the FDL reply admission filter'],
+ 'technique': 'phase 1: model + correspondence + executable recovery monitor',
+ 'level_text': 'Phase 1: model, correspondence, bounded-recovery monitor (DpOracle.c07_monitor, bound max_retry+16 cycles) on fault histories '
+               'followed by a fault-free tail; one-step theorems C07_offline_reported, C07_reply_never_counts. Known finding F15 (class '
+               'DpOracle.c07_known_f15). Missing for a claim: C07_recovery over the joint system.',
+ 'level_note': 'Trusted: Coq kernel, translator (gen/translate.py, gen/tr_dp.py), extraction + OCaml driver, Rust harness; hand model validated '
+               'differentially, not verified.',
+ 'design_ref': 'DESIGN.md section 4, C07',
+ 'assumptions': ['histories allowed by the FdlApplication contract (C15)',
+                 'bytes 0..255, addresses 0..125, max_retry_limit 1..15 (ParametersBuilder bounds)']}
+
+PROPS["C08"] = {'claimed': False,
+ 'coq': 'Properties/C08.v',
+ 'domains': ['dp'],
+ 'nontrivial': ['dp:step:transmit', 'dp:step:reply', 'dp:step:timeout'],
+ 'rule': 'cases = generated DP histories (0..4 peripherals in dense/sparse/Vec storage, all option values, conforming/silent/faulty/mismatching '
+         'slaves, lost requests/replies, malformed and unexpected replies, power cycles, user calls between bus events, time advances, fault-free '
+         'tails), deduplicated; non-trivial = callbacks executed on the real master (transmit / reply / timeout steps)',
+ 'trusted_base': ['hand models coq/Model/Peripheral.v + DpMaster.v of src/dp/peripheral.rs, master.rs, peripheral_set.rs (after fix commits F4 F6 '
+                  'F10 F11), tied by transcript replay: every FdlApplication callback and API call of generated histories is executed on the real '
+                  'DpMaster and on the model, all outputs compared (TX bytes, events, is_live/is_running/pi_i/pi_q/last_diagnostics, operating '
+                  'state)',
+                  'reference slave coq/Model/Slave.v (environment, written against the PROFIBUS standard, not the crate) and its Rust twin in '
+                  'harness/src/dp.rs, compared on every slave reply',
+                  'the FdlApplication contract (C15) as the space of histories; harness emulates the FDL reply admission filter'],
+ 'technique': 'phase 1: model + correspondence + executable wire monitor; one-step theorems',
+ 'level_text': 'Phase 1: model, correspondence, frame-count-bit / retry monitor per destination (DpOracle.c08_monitor) on every implementation '
+               'transcript; one-step theorems over all states: C08_first_offline, C08_first_probe, C08_toggle_after_accept, C08_transmit_step. '
+               'Missing for a claim: the history theorems (monitor accepts every history of the model).',
+ 'level_note': 'Trusted: Coq kernel, translator (gen/translate.py, gen/tr_dp.py), extraction + OCaml driver, Rust harness; hand model validated '
+               'differentially, not verified.',
+ 'design_ref': 'DESIGN.md section 4, C08',
+ 'assumptions': ['histories allowed by the FdlApplication contract (C15)',
+                 'bytes 0..255, addresses 0..125, max_retry_limit 1..15 (ParametersBuilder bounds)']}
+
+PROPS["C14"] = {'claimed': False,
+ 'coq': 'Properties/C14.v',
+ 'domains': ['dp'],
+ 'nontrivial': ['dp:step:transmit', 'dp:step:reply', 'dp:step:timeout'],
+ 'rule': 'cases = generated DP histories (0..4 peripherals in dense/sparse/Vec storage, all option values, conforming/silent/faulty/mismatching '
+         'slaves, lost requests/replies, malformed and unexpected replies, power cycles, user calls between bus events, time advances, fault-free '
+         'tails), deduplicated; non-trivial = callbacks executed on the real master (transmit / reply / timeout steps)',
+ 'trusted_base': ['hand models coq/Model/Peripheral.v + DpMaster.v of src/dp/peripheral.rs, master.rs, peripheral_set.rs (after fix commits F4 F6 '
+                  'F10 F11), tied by transcript replay: every FdlApplication callback and API call of generated histories is executed on the real '
+                  'DpMaster and on the model, all outputs compared (TX bytes, events, is_live/is_running/pi_i/pi_q/last_diagnostics, operating '
+                  'state)',
+                  'reference slave coq/Model/Slave.v (environment, written against the PROFIBUS standard, not the crate) and its Rust twin in '
+                  'harness/src/dp.rs, compared on every slave reply',
+                  'the FdlApplication contract (C15) as the space of histories; harness emulates the FDL reply admission filter'],
+ 'technique': 'phase 1: model + correspondence + executable cycle/event monitor; termination theorem',
+ 'level_text': 'Phase 1: model, correspondence, cycle and event life-cycle monitor (DpOracle.c14_monitor); C14_turn_ends / C14_loop_bound: '
+               'transmit_telegram returns within #slots+2 loop iterations for every master state. Missing for a claim: C14_one_turn_each, '
+               'C14_cycle_completed_once, C14_no_event_lost, C14_lifecycle.',
+ 'level_note': 'Trusted: Coq kernel, translator (gen/translate.py, gen/tr_dp.py), extraction + OCaml driver, Rust harness; hand model validated '
+               'differentially, not verified.',
+ 'design_ref': 'DESIGN.md section 4, C14',
+ 'assumptions': ['histories allowed by the FdlApplication contract (C15)',
+                 'bytes 0..255, addresses 0..125, max_retry_limit 1..15 (ParametersBuilder bounds)']}
